@@ -69,6 +69,16 @@ variable [Add α] [Sub α] [Mul α] [Div α] [Neg α] [Zero α] [One α] [NatCas
 def gpfSample (μ : Vec α n) (S : Mat α n n) (z : Vec α n) : Vec α n :=
   μ.add (S.mulVec z)
 
+/-- Layout of a particle set built as `ParticleSet(k, n − circ, circ)` (non-quaternion): the last `circ`
+    of the `n` state rows are angles.  `GPFPrediction` / `GPFCorrection` never read the layout: `gpfSample`,
+    `gpfCorrect`, `gpfPredict` act on all rows alike (only the wrapped Gaussian steps — parameters `gp`,
+    `gc` — treat angular rows specially: wrapped sigma points, directional means).  `gpfWrapRows` is what
+    a reduction of the angular rows (`directional_add(rows, 0)`, `wrap` = reduction to (−π, π]) would do to
+    a position; it is *not* applied by the code (theorems `gpf_wrapped_draw_breaks_mahalanobis`,
+    `gpf_wrap_rows_fixed` in BFL/Props/C08.lean say what would happen if it were). -/
+def gpfWrapRows (wrap : α → α) (circ : Nat) (x : Vec α n) : Vec α n :=
+  Vec.of fun j => if n - circ ≤ j.val then wrap (x j) else x j
+
 /-- the quadratic form `(x − μ)ᵀ P⁻¹ (x − μ)` of `multivariate_gaussian_log_density` -/
 def gpfQuad (inv : Mat α n n → Mat α n n) (x μ : Vec α n) (P : Mat α n n) : α :=
   let d := x.sub μ
